@@ -148,3 +148,86 @@ def ma_discrete(payload):
                                 return {"status": "fail", "cases": cases, "detail": f"{name} agent {aid}: mask {mask}, training={training}: returned masked action {int(x)}",
                                         "input": {"mask": list(mask), "training": training}}
     return {"status": "pass", "cases": cases}
+
+
+def bandit(payload):
+    """NeuralUCB / NeuralTS: the returned arm is in range and never masked, for every mask with a legal arm."""
+    from gymnasium import spaces
+    from agilerl.algorithms.neural_ts_bandit import NeuralTS
+    from agilerl.algorithms.neural_ucb_bandit import NeuralUCB
+    cases = 0
+    torch.manual_seed(payload.get("seed", 0))
+    for cls in (NeuralUCB, NeuralTS):
+        for n in (2, 3, 4):
+            agent = cls(spaces.Box(-1, 1, (3 * n,)), spaces.Discrete(n))
+            obs = np.random.RandomState(1).randn(n, 3 * n).astype(np.float32)
+            for mask in [None] + [m for m in itertools.product([0, 1], repeat=n) if any(m)]:
+                a = agent.get_action(obs, action_mask=None if mask is None else np.array(mask))
+                cases += 1
+                if not (0 <= int(a) < n) or (mask is not None and mask[int(a)] == 0):
+                    return {"status": "fail", "cases": cases, "detail": f"{cls.__name__}: arms={n} mask={mask}: returned arm {int(a)}", "input": {"mask": mask, "arms": n}}
+    return {"status": "pass", "cases": cases}
+
+
+def pg_eval(payload):
+    """Evaluation-mode policy-gradient agents on Box spaces: PPO (net_config, squash on/off) and IPPO (custom squashing actor /
+    default). The returned action has the batch shape of the observation and lies inside the bounds."""
+    from gymnasium import spaces
+    from agilerl.algorithms.ippo import IPPO
+    from agilerl.algorithms.ppo import PPO
+    from agilerl.networks.actors import StochasticActor
+    from agilerl.networks.value_networks import ValueNetwork
+    cases = 0
+    torch.manual_seed(payload.get("seed", 0))
+    obs_space = spaces.Box(-1, 1, (4,))
+    boxes = [spaces.Box(low=np.array([-2, -0.5], dtype=np.float32), high=np.array([2, 0.5], dtype=np.float32)),
+             spaces.Box(low=np.array([0.0, -3, 1], dtype=np.float32), high=np.array([1, -1, 1.5], dtype=np.float32)), spaces.Box(-1, 1, (2,))]
+    obs = (np.random.RandomState(0).randn(6, 4) * 3).astype(np.float32)
+    only = payload.get("only")
+
+    def check(name, a, box):
+        a = np.asarray(a)
+        if a.shape != (6,) + box.shape:
+            return f"{name}: action batch shape {a.shape} for 6 observations of {box}"
+        for row in a:
+            if not (np.all(row >= box.low - 1e-5) and np.all(row <= box.high + 1e-5)):
+                return f"{name}: evaluation-mode action {row.tolist()} outside low={box.low.tolist()} high={box.high.tolist()}"
+        return None
+    for box in boxes:
+        for squash in (False, True):
+            if only in (None, "ppo"):
+                net = {"encoder_config": {"hidden_size": [16]}, "head_config": {"hidden_size": [16]}, "squash_output": squash}
+                p = PPO(obs_space, box, net_config=net, share_encoders=False)
+                with torch.no_grad():
+                    for q in p.actor.parameters():
+                        q.mul_(8)                                  # saturate some outputs
+                p.training = False
+                cases += 1
+                try:
+                    a = p.get_action(obs)[0]
+                except TypeError as e:
+                    return {"status": "fail", "cases": cases, "witness_key": "pg-eval-squash-typeerror",
+                            "detail": f"PPO(squash_output={squash}).get_action in evaluation mode raised TypeError: {e}", "input": {"squash": squash}}
+                bad = check(f"PPO(squash_output={squash})", a, box)
+                if bad:
+                    return {"status": "fail", "cases": cases, "detail": bad, "input": {"squash": squash, "low": box.low.tolist(), "high": box.high.tolist()}}
+            # IPPO has no squashing configuration: its net_config rejects squash_output and get_action cannot handle entropy=None
+            if only in (None, "ippo") and not squash:
+                kw = {}
+                ag = IPPO(observation_spaces=[obs_space, obs_space], action_spaces=[box, box], agent_ids=["a_0", "a_1"], **kw)
+                with torch.no_grad():
+                    for q in ag.actors[0].parameters():
+                        q.mul_(8)
+                ag.training = False
+                cases += 1
+                try:
+                    act = ag.get_action({"a_0": obs, "a_1": obs})[0]
+                except TypeError as e:
+                    return {"status": "fail", "cases": cases, "witness_key": "ippo-eval-squash",
+                            "detail": f"IPPO(squashing actor={squash}).get_action in evaluation mode raised TypeError: {e}", "input": {"squash": squash}}
+                for aid, a in act.items():
+                    bad = check(f"IPPO(squashing actor={squash}) agent {aid}", a, box)
+                    if bad:
+                        return {"status": "fail", "cases": cases, "witness_key": "ippo-eval-squash" if squash else None, "detail": bad,
+                                "input": {"squash": squash, "low": box.low.tolist(), "high": box.high.tolist()}}
+    return {"status": "pass", "cases": cases}
